@@ -101,10 +101,26 @@ pub fn gen_stack(rng: &mut Rng, depth: usize, axial: bool, allow: &[&str]) -> Ve
     let mut v = vec![];
     for _ in 0..depth {
         let k = *rng.pick(allow);
+        // a share of the transforms is turned by a tiny angle only (1e-9 .. 1e-3 rad)
+        let tiny = rng.bool(0.15);
+        let tiny_rot = |rng: &mut Rng, f: Fr, axial: bool| {
+            let ang = rng.sign() * rng.logu(1e-9, 1e-3);
+            let ax = if axial { [0.0, 0.0, 1.0] } else { let v = random_rotation(rng); col(&v, 0) };
+            Fr { r: axis_angle(ax, ang), p: f.p }
+        };
         let l = match k {
-            "Tool" => Layer::Tool(if axial { axial_fr(rng, 0.5) } else { random_fr(rng, 0.5) }),
-            "Frame" => Layer::Frame(if axial { axial_fr(rng, 0.5) } else { random_fr(rng, 0.5) }),
-            "Base" => Layer::Base(random_fr(rng, 1.0)),
+            "Tool" => {
+                let f = if axial { axial_fr(rng, 0.5) } else { random_fr(rng, 0.5) };
+                Layer::Tool(if tiny { tiny_rot(rng, f, axial) } else { f })
+            }
+            "Frame" => {
+                let f = if axial { axial_fr(rng, 0.5) } else { random_fr(rng, 0.5) };
+                Layer::Frame(if tiny { tiny_rot(rng, f, axial) } else { f })
+            }
+            "Base" => {
+                let f = random_fr(rng, 1.0);
+                Layer::Base(if tiny { tiny_rot(rng, f, false) } else { f })
+            }
             _ => {
                 let driven = rng.usize(6);
                 let mut coupled = rng.usize(5);
